@@ -111,6 +111,8 @@ def prepare(prop_id, targets, regenerate=True, want_driver=True):
         if regenerate:
             from . import translate
             res["gen"] = translate.regenerate()
+            subprocess.run(["python3", os.path.join(os.path.dirname(LEAN_DIR), "harness", "genroots.py")],
+                           capture_output=True, text=True)
         tg = list(targets) + (["pwdriver"] if want_driver else [])
         cmd = ["lake", "build"] + tg
         res["checker_cmd"] = "cd /verif/lean && " + " ".join(cmd) + " && lake env lean obligations/Audit_%s.lean" % prop_id
